@@ -1,5 +1,7 @@
 import Ark.Model.DrvC15
 import Ark.Model.DrvC01
+import Ark.Model.DrvC17
+import Ark.Model.DrvC03
 /-  arkdrv: one op per line on stdin: `<prop> <op> args… => <impl output>` → one line `model|verdict` -/
 open Ark
 
@@ -14,6 +16,14 @@ def dispatch (st : DrvState) (line : String) : DrvState × String :=
   match inp.splitOn " " with
   | "C15" :: op :: args =>
     match DrvC15.run op args impl with
+    | some (m, s) => (st, m ++ "|" ++ s)
+    | none => (st, "bad-op")
+  | "C03" :: op :: args =>
+    match DrvC03.run op args impl with
+    | some (m, s) => (st, m ++ "|" ++ s)
+    | none => (st, "bad-op")
+  | "C17" :: op :: args =>
+    match DrvC17.run op args impl with
     | some (m, s) => (st, m ++ "|" ++ s)
     | none => (st, "bad-op")
   | "C01" :: op :: args =>
